@@ -285,6 +285,37 @@ MUTANTS = [
      '  else:\n    return tf.maximum(differences, 0.0)', None, 'N: float literal in the exact repair'),
     ('C01', 'lattice_lib.py', '    layers = _unstack_nd(trust_projection, [main_dim, cond_dim])', '    layers = _unstack_nd(trust_projection, dims=[main_dim, cond_dim])',
      None, 'N: keyword form of dims'),
+    # ---- rules added with the fourth batch of seeded changes
+    ('C16', 'lattice_lib.py', '      weak_dim_idx = range(lattice_sizes[weak_dim])',
+     '      weak_dim_idx = range(lattice_sizes[dominant_dim])', 'CP1',
+     'copy of the dominant line with one identifier not replaced'),
+    ('C08', 'lattice_lib.py', '      weak_dim_idx = range(lattice_sizes[weak_dim])',
+     '      weak_dim_idx = range(lattice_sizes[dominant_dim])', 'CP1',
+     'copy of the dominant line with one identifier not replaced'),
+    ('C16', 'lattice_layer.py', '    if (isinstance(range_dominances, tuple) and range_dominances and\n        isinstance(range_dominances[0], int)):',
+     '    if (isinstance(range_dominances, tuple) and range_dominances and\n        isinstance(monotonic_dominances[0], int)):', 'CP1',
+     'range_dominances block tests the other argument'),
+    ('C11', 'lattice_lib.py', '                      cond_direction) in set(\n                          tuple(t) for t in edgeworth_trusts or [])',
+     '                      cond_direction) in (edgeworth_trusts or [])', 'T4',
+     'tuple looked up among possibly-list constraints'),
+    ('C01', 'lattice_lib.py', '                      cond_direction) in set(\n                          tuple(t) for t in edgeworth_trusts or [])',
+     '                      cond_direction) in (edgeworth_trusts or [])', 'T4',
+     'tuple looked up among possibly-list constraints'),
+    ('C11', 'rtl_layer.py', '              kernel_regularizer=kernel_regularizer,\n              name=layer_name,\n          )\n        elif',
+     '              kernel_regularizer=self.kernel_regularizer,\n              name=layer_name,\n          )\n        elif', 'X8',
+     'raw attribute passed after the local was normalised'),
+    ('C12', 'pwl_calibration_layer.py', '    if self.impute_missing and self.missing_output_value is None:\n      asserts',
+     '    if self.impute_missing and self.missing_input_value is None:\n      asserts', 'A8',
+     'learned missing output asserted under another guard'),
+    ('C12', 'lattice_lib.py', '    for i in range(dom_dim_size):\n      for j in range(weak_dim_size):\n        diff = tf.reduce_min(\n            (weights_layers[dom_dim_size - 1][j] - weights_layers[0][j]) -\n            (weights_layers[i][weak_dim_size - 1] - weights_layers[i][0]))\n        asserts.append(\n            tf.Assert(\n                diff >= -eps,',
+     '    for i, j in zip(range(dom_dim_size), range(weak_dim_size)):\n      if True:\n        diff = tf.reduce_min(\n            (weights_layers[dom_dim_size - 1][j] - weights_layers[0][j]) -\n            (weights_layers[i][weak_dim_size - 1] - weights_layers[i][0]))\n        asserts.append(\n            tf.Assert(\n                diff >= -eps,', 'A5',
+     'range dominance asserted on the diagonal only'),
+    ('C10', 'lattice_layer.py', '        all_unimodalities[dim] = direction',
+     "        all_unimodalities[dim] = 1 if direction == 'valley' else -1", 'V3c',
+     'initializer compares the direction case-sensitively'),
+    ('C02', 'lattice_lib.py', '  if clip_inputs:\n    inputs = _clip_onto_lattice_range(\n        inputs=inputs, lattice_sizes=lattice_sizes)\n\n  lattice_rank = len(lattice_sizes)\n  input_dim = len(inputs.shape)\n  all_size_2 = all(size == 2 for size in lattice_sizes)',
+     '  lattice_rank = len(lattice_sizes)\n  input_dim = len(inputs.shape)\n  all_size_2 = all(size == 2 for size in lattice_sizes)\n  raw_cell = tf.cast(inputs, tf.int32)\n  if clip_inputs:\n    inputs = _clip_onto_lattice_range(\n        inputs=inputs, lattice_sizes=lattice_sizes)', 'X5',
+     'a cell index is taken from the coordinates before they are clipped'),
 ]
 MUTANTS = [m for m in MUTANTS if m[3] is not None or m[4] is not None]
 
